@@ -3,7 +3,10 @@ Scenario:    ri rev shuffle seed repeat route real  nT (group name ignored)*  nG
              route 0 = API (TestFilter lists, setRunIgnored, reverseTests, shuffleTests), 1 = argv through CommandLineTestRunner,
              2 = argv with group/name filters paired into -t/-st/-xt/-xst where possible;  real 1 = the platform's srand/rand
              are used (the rand list is then the stream libc gives for that seed, computed here through ctypes).
-Observation: (:rep nOrd id* nS seed* nR rand* nW event* tests run ignored filtered)*  :tot nT count*      (see harness/C02.cpp)"""
+             A scenario is a SESSION on one registry: after the first run any number of further runs
+             (:r ri rev shuffle seed repeat route real list  nG (pat strict invert)*  nN (pat strict invert)*  nR rand*)*
+             each with its own configuration; list 1/2/3 = a listing run (-lg / -ln / -ll): filters installed, nothing run.
+Observation: (:run (:rep nOrd id* nS seed* nR rand* nW event* tests run ignored filtered)*)*  :tot nT count*      (see harness/C02.cpp)"""
 import ctypes
 import itertools
 from vlib import tz, tb
@@ -139,17 +142,36 @@ def scripted_rands(rng, n):
     return out
 
 
-def fmt(ri, rev, shuffle, seed, repeat, route, real, tests, gf, nf, rands):
+def _fl(fl):
+    out = ["%x" % len(fl)]
+    for p, s, x in fl:
+        out.append("%s %x %x" % (tb(p), s, x))
+    return out
+
+
+def fmt_run(r):
+    """one further run of a session"""
+    t = [":r %x %x %x %x %x %x %x %x" % (r["ri"], r["rev"], r["shuffle"], r["seed"], r["repeat"], r["route"], r["real"], r["list"])]
+    t += _fl(r["gf"]) + _fl(r["nf"])
+    t.append("%x" % len(r["rands"]))
+    t += ["%x" % v for v in r["rands"]]
+    return " ".join(t)
+
+
+def fmt(ri, rev, shuffle, seed, repeat, route, real, tests, gf, nf, rands, more=()):
     t = ["%x %x %x %x %x %x %x" % (ri, rev, shuffle, seed, repeat, route, real), "%x" % len(tests)]
     for g, n, ig in tests:
         t.append("%s %s %x" % (tb(g), tb(n), ig))
-    for fl in (gf, nf):
-        t.append("%x" % len(fl))
-        for p, s, x in fl:
-            t.append("%s %x %x" % (tb(p), s, x))
+    t += _fl(gf) + _fl(nf)
     t.append("%x" % len(rands))
     t += ["%x" % r for r in rands]
+    t += [fmt_run(r) for r in more]
     return " ".join(t)
+
+
+def mkrun(gf=(), nf=(), ri=0, rev=0, shuffle=0, seed=1, repeat=1, route=1, real=0, list_=0, rands=()):
+    return dict(ri=ri, rev=rev, shuffle=shuffle, seed=seed, repeat=repeat, route=route, real=real, list=list_, gf=list(gf), nf=list(nf),
+                rands=list(rands))
 
 
 def parse(s):
@@ -162,22 +184,39 @@ def parse(s):
     for _ in range(n):
         tests.append((bytes.fromhex(t[i][1:]), bytes.fromhex(t[i + 1][1:]), int(t[i + 2], 16)))
         i += 3
-    fls = []
-    for _ in range(2):
+
+    def filters_and_rands(i):
+        fls = []
+        for _ in range(2):
+            k = int(t[i], 16)
+            i += 1
+            fl = []
+            for _ in range(k):
+                fl.append((bytes.fromhex(t[i][1:]), int(t[i + 1], 16), int(t[i + 2], 16)))
+                i += 3
+            fls.append(fl)
         k = int(t[i], 16)
-        i += 1
-        fl = []
-        for _ in range(k):
-            fl.append((bytes.fromhex(t[i][1:]), int(t[i + 1], 16), int(t[i + 2], 16)))
-            i += 3
-        fls.append(fl)
-    k = int(t[i], 16)
-    rands = [int(x, 16) for x in t[i + 1:i + 1 + k]]
-    return dict(ri=ri, rev=rev, shuffle=sh, seed=seed, repeat=rep, route=route, real=real, tests=tests, gf=fls[0], nf=fls[1], rands=rands)
+        rands = [int(x, 16) for x in t[i + 1:i + 1 + k]]
+        return fls[0], fls[1], rands, i + 1 + k
+    gf, nf, rands, i = filters_and_rands(i)
+    more = []
+    while i < len(t) and t[i] == ":r":
+        v = [int(x, 16) for x in t[i + 1:i + 9]]
+        g2, n2, r2, i = filters_and_rands(i + 9)
+        more.append(dict(ri=v[0], rev=v[1], shuffle=v[2], seed=v[3], repeat=v[4], route=v[5], real=v[6], list=v[7], gf=g2, nf=n2, rands=r2))
+    return dict(ri=ri, rev=rev, shuffle=sh, seed=seed, repeat=rep, route=route, real=real, tests=tests, gf=gf, nf=nf, rands=rands, more=more)
 
 
 def unparse(d):
-    return fmt(d["ri"], d["rev"], d["shuffle"], d["seed"], d["repeat"], d["route"], d["real"], d["tests"], d["gf"], d["nf"], d["rands"])
+    return fmt(d["ri"], d["rev"], d["shuffle"], d["seed"], d["repeat"], d["route"], d["real"], d["tests"], d["gf"], d["nf"], d["rands"],
+               d.get("more", ()))
+
+
+def runs_of(d):
+    """the runs of a session, first run included, as dicts with the keys of mkrun"""
+    first = dict(ri=d["ri"], rev=d["rev"], shuffle=d["shuffle"], seed=d["seed"], repeat=d["repeat"], route=d["route"], real=d["real"],
+                 list=0, gf=d["gf"], nf=d["nf"], rands=d["rands"])
+    return [first] + list(d.get("more", ()))
 
 
 def pick_size(rng, big):
@@ -263,20 +302,136 @@ def exhaustive_shuffles():
     return out
 
 
+def random_run(rng, n, gstr, nstr, first=False):
+    """one run of a session: filters of both kinds, of one kind only, or none; sometimes a listing run"""
+    c = rng.random()
+    if c < 0.3:
+        gf, nf = [], []
+    elif c < 0.5:
+        gf, nf = gen_filters(rng, gstr, 2) or [(rng.choice(gstr), 0, 0)], []
+    elif c < 0.7:
+        gf, nf = [], gen_filters(rng, nstr, 2) or [(rng.choice(nstr), 0, 0)]
+    else:
+        gf, nf = gen_filters(rng, gstr, 2), gen_filters(rng, nstr, 2)
+    route = rng.choice([0, 1, 1, 1, 2])
+    shuffle = 1 if rng.random() < 0.3 else 0
+    real = 0
+    seed = rng.choice([1, 2, rng.randrange(1, 2000), (1 << 32) - 1])
+    rands = []
+    if shuffle:
+        if rng.random() < 0.25:
+            real, rands = 1, libc_stream(seed, max(n - 1, 0))
+        else:
+            rands = scripted_rands(rng, n)
+    repeat = rng.choice([1, 1, 1, 2, 2, 3])
+    if route == 0 and rng.random() < 0.06:
+        repeat = 0
+    lst = 0 if first or rng.random() < 0.8 else rng.choice([1, 2, 2, 3])
+    return mkrun(gf, nf, 1 if rng.random() < 0.2 else 0, 1 if rng.random() < 0.3 else 0, shuffle, seed, repeat, route, real, lst, rands)
+
+
+def session(tests, runs):
+    f = runs[0]
+    return fmt(f["ri"], f["rev"], f["shuffle"], f["seed"], f["repeat"], f["route"], f["real"], tests, f["gf"], f["nf"], f["rands"], runs[1:])
+
+
+def session_tests(rng, lo=2, hi=9):
+    n = rng.randrange(lo, hi)
+    tests = gen_tests(rng, n)
+    if len(set(t[0] for t in tests)) < 2 and n >= 2:        # at least two groups, so that a group filter separates
+        g, nm, ig = tests[-1]
+        tests[-1] = (g + b"c" if g != b"c" * len(g) or not g else g + b"a", nm, ig)
+    return tests
+
+
+def random_session(rng):
+    tests = session_tests(rng, 0 if rng.random() < 0.05 else 2, 10 if rng.random() < 0.9 else 40)
+    n = len(tests)
+    gstr = sorted(set(t[0] for t in tests)) or [b"a"]
+    nstr = sorted(set(t[1] for t in tests)) or [b"a"]
+    k = rng.choice([2, 2, 2, 3, 3, 4, 5])
+    runs = [random_run(rng, n, gstr, nstr, first=True)] + [random_run(rng, n, gstr, nstr) for _ in range(k - 1)]
+    return session(tests, runs)
+
+
+def stale_session(rng):
+    """aimed: a run (or a listing run) that installs filters of one kind, later a run that gives none of that kind -- directly after
+    it, after a listing run, or after another run; both routes, both kinds, every filter kind, repeats, reverse / shuffle in between"""
+    tests = session_tests(rng)
+    n = len(tests)
+    gstr = sorted(set(t[0] for t in tests))
+    nstr = sorted(set(t[1] for t in tests))
+    side = rng.randrange(2)                 # the kind that goes stale: 0 group, 1 name
+    strs = nstr if side else gstr
+    st, iv = rng.randrange(2), rng.randrange(2)
+    flt = [(rng.choice(strs), st, iv)]
+    if rng.random() < 0.3:
+        flt.append((mutate_pat(rng, rng.choice(strs)), rng.randrange(2), rng.randrange(2)))
+    other = gen_filters(rng, gstr if side else nstr, 2)
+
+    def run(own, oth, **kw):
+        gf, nf = (oth, own) if side else (own, oth)
+        return mkrun(gf, nf, **kw)
+
+    def extras():
+        kw = dict(route=rng.choice([0, 1, 1, 1, 2]), repeat=rng.choice([1, 1, 2, 3]), ri=1 if rng.random() < 0.15 else 0,
+                  rev=1 if rng.random() < 0.25 else 0)
+        if rng.random() < 0.25:
+            kw.update(shuffle=1, seed=rng.randrange(1, 100), rands=scripted_rands(rng, n))
+        return kw
+    a = run(flt, other if rng.random() < 0.4 else [], **extras())
+    if rng.random() < 0.25:
+        a["list"] = rng.choice([1, 2, 3])    # the filters come from a listing run
+    b = run([], gen_filters(rng, gstr if side else nstr, 2) if rng.random() < 0.4 else [], **extras())
+    c = rng.random()
+    if a["list"]:
+        runs = [mkrun(route=rng.choice([0, 1]), repeat=1), a, b]
+    elif c < 0.55:
+        runs = [a, b]
+    elif c < 0.7:
+        runs = [a, run([], [], list_=rng.choice([1, 2, 3]), route=rng.choice([0, 1])), b]   # a listing run without filters in between
+    elif c < 0.85:
+        runs = [a, b, run([], [], **extras())]
+    else:
+        runs = [run([], [], **extras()), a, b]
+    return session(tests, runs)
+
+
+def session_grid():
+    """fixed small registry: run 1 with one filter (every kind, both sides, both routes), run 2 with no filter / with the other kind only"""
+    tests = [(b"ab", b"x", 0), (b"ab", b"y", 1), (b"c", b"x", 0), (b"abc", b"xy", 0)]
+    out = []
+    for st in (0, 1):
+        for iv in (0, 1):
+            for r1 in (0, 1):
+                for r2 in (0, 1):
+                    g, nm = [(b"ab", st, iv)], [(b"x", st, iv)]
+                    out.append(session(tests, [mkrun(g, [], route=r1), mkrun([], [], route=r2)]))
+                    out.append(session(tests, [mkrun([], nm, route=r1), mkrun([], [], route=r2, repeat=2)]))
+                    out.append(session(tests, [mkrun(g, [], route=r1), mkrun([], nm, route=r2)]))
+                    out.append(session(tests, [mkrun([], nm, route=r1), mkrun(g, [], route=r2)]))
+                    out.append(session(tests, [mkrun(g, nm, route=r1, ri=1), mkrun([], [], route=r2, rev=1)]))
+                    out.append(session(tests, [mkrun([], [], route=r1), mkrun(g, nm, route=r2, list_=1 + st + iv), mkrun([], [], route=r1)]))
+    return out
+
+
 def generate(tier, rng):
     quick = tier == "quick"
-    out = filter_grid() + exhaustive_shuffles()
+    out = filter_grid() + exhaustive_shuffles() + session_grid()
     out += seed_sweep(rng, range(1, 51 if quick else 2001), [0, 1, 2, 3, 7, 64])
     n = 2500 if quick else 60000
     big = 64 if quick else 200
     for k in range(n):
         out.append(random_scenario(rng, big, [None, "shuffle", "filters"][k % 3]))
+    for k in range(900 if quick else 15000):
+        out.append(stale_session(rng) if k % 3 else random_session(rng))
     return out
 
 
 def nontrivial(s):
     d = parse(s)
-    return len(d["tests"]) >= 2 and bool(d["gf"] or d["nf"] or d["rev"] or d["shuffle"] or any(t[2] for t in d["tests"]))
+    rl = runs_of(d)
+    return len(d["tests"]) >= 2 and bool(any(c["gf"] or c["nf"] or c["rev"] or c["shuffle"] for c in rl) or any(t[2] for t in d["tests"]))
 
 
 def classify(s):
@@ -297,14 +452,42 @@ def classify(s):
         lab.append("%sfilters:%d" % (side, len(fl)))
         for p, st, iv in fl:
             lab.append("filter:" + ["substring", "strict", "inverted", "inverted-strict"][st + 2 * iv])
+    rl = runs_of(d)
+    lab.append("runs:%d" % len(rl))
+    if len(rl) > 1:
+        lab.append("session:routes-" + "".join(sorted(set("a" if c["route"] == 0 else "c" for c in rl))))
+        for k in range(1, len(rl)):
+            c = rl[k]
+            if c["list"]:
+                lab.append("session:listing-run")
+            for side in ("gf", "nf"):
+                if not c[side] and any(p[side] for p in rl[:k]):
+                    lab.append("session:no-%s-after-a-run-with-some" % side)
+                    if rl[k - 1][side]:
+                        lab.append("session:no-%s-directly-after-a-run-with-some" % side)
+            if bool(c["gf"]) != bool(c["nf"]):
+                lab.append("session:later-run-one-kind-only")
+            if c["repeat"] > 1:
+                lab.append("session:later-run-repeats")
+            if c["shuffle"] or c["rev"]:
+                lab.append("session:later-run-reorders")
+            if not c["ri"] and any(p["ri"] for p in rl[:k]):
+                lab.append("session:no-ri-after-ri")
     return lab
 
 
 def parse_obs(o):
+    """-> (runs, totals): runs = list (per run) of lists of repetitions"""
     t = o.split()
     i = 0
-    reps = []
-    while i < len(t) and t[i] == ":rep":
+    runs = []
+    while i < len(t) and t[i] in (":run", ":rep"):
+        if t[i] == ":run":
+            runs.append([])
+            i += 1
+            continue
+        if not runs:
+            raise ValueError(":rep before :run")
         i += 1
         lists = []
         for _ in range(3):
@@ -323,14 +506,14 @@ def parse_obs(o):
                 i += 1
         cnt = [int(x, 16) for x in t[i:i + 4]]
         i += 4
-        reps.append(dict(order=lists[0], seeds=lists[1], rands=lists[2], word=word, cnt=cnt))
+        runs[-1].append(dict(order=lists[0], seeds=lists[1], rands=lists[2], word=word, cnt=cnt))
     if t[i] != ":tot":
         raise ValueError("no :tot")
     k = int(t[i + 1], 16)
     tot = [int(x, 16) for x in t[i + 2:i + 2 + k]]
     if len(tot) != k or i + 2 + k != len(t):
         raise ValueError("bad :tot")
-    return reps, tot
+    return runs, tot
 
 
 def py_accepts(f, x):
@@ -339,71 +522,98 @@ def py_accepts(f, x):
     return base != bool(invert)
 
 
-def py_selected(d, t):
-    return ((not d["gf"]) or any(py_accepts(f, t[0]) for f in d["gf"])) and ((not d["nf"]) or any(py_accepts(f, t[1]) for f in d["nf"]))
+def py_selected(c, t):
+    """c: a run's own configuration"""
+    return ((not c["gf"]) or any(py_accepts(f, t[0]) for f in c["gf"])) and ((not c["nf"]) or any(py_accepts(f, t[1]) for f in c["nf"]))
+
+
+def judge_rep(tests, c, ri, order, r):
+    """one repetition of the run c, judged against c's OWN filters with run-ignored = ri; order = the exact list order expected, or
+    None when a shuffle has happened (any permutation).  None or the first clause that fails."""
+    n = len(tests)
+    sel = [py_selected(c, t) for t in tests]
+    exe = [sel[i] and (not tests[i][2] or bool(ri)) for i in range(n)]
+    ign = [sel[i] and bool(tests[i][2]) and not ri for i in range(n)]
+    if sorted(r["order"]) != list(range(n)):
+        return "order is not a permutation: a test lost or duplicated"
+    if order is not None and r["order"] != order:
+        return "order is a permutation but not the order the reversals so far give"
+    w = r["word"]
+    if len(w) < 2 or w[0][0] != ":S" or w[-1][0] != ":E":
+        return "callback word does not start/end with tests started/ended"
+    st = "out"
+    for e, i in w[1:-1]:
+        if st == "out" and e == ":G" and i < n:
+            st = "grp"
+            g = i
+        elif st == "grp" and e == ":s" and i < n:
+            if tests[i][0] != tests[g][0]:
+                return "a test was started inside the group segment of another group"
+            st = ("tst", i)
+        elif st == "grp" and e == ":g":
+            st = "out"
+        elif isinstance(st, tuple) and st[0] == "tst" and e == ":b" and i == st[1]:
+            st = ("bdy", i)
+        elif isinstance(st, tuple) and e == ":e":
+            st = "grp"
+        else:
+            return "group/test notifications not balanced"
+    if st != "out":
+        return "group/test notifications not balanced"
+    for i in range(n):
+        if sum(1 for e in w if e == (":s", i)) != (1 if sel[i] else 0):
+            return "selection wrong: a test %s" % ("selected by the filters was not started exactly once" if sel[i] else "not selected by the filters was started")
+        if sum(1 for e in w if e == (":b", i)) != (1 if exe[i] else 0):
+            return "execution wrong: a test body ran %s" % ("not exactly once" if exe[i] else "although ignored or not selected")
+    k = r["cnt"]
+    if k[0] != n:
+        return "test count differs from the number of registered tests"
+    if k[0] != k[1] + k[2] + k[3]:
+        return "tests != run + ignored + filtered out"
+    if k[1] != sum(exe):
+        return "run count wrong"
+    if k[2] != sum(ign):
+        return "ignored count wrong"
+    if k[3] != n - sum(sel):
+        return "filtered-out count wrong"
+    return None
 
 
 def diagnose(d, o):
-    """the property, clause by clause, judged in Python independently of the extracted spec: None or the first clause that fails"""
+    """the property, clause by clause, judged in Python independently of the extracted spec: None or the first clause that fails.
+    Every run of a session is judged against its own filters; of the earlier runs only the list order they left (reversals, a
+    shuffle) and whether run-ignored was ever requested enter (that switch may or may not persist: both readings are accepted)."""
     try:
-        reps, tot = parse_obs(o)
+        runs, tot = parse_obs(o)
     except Exception:
         return "malformed observation"
     tests = d["tests"]
     n = len(tests)
-    sel = [py_selected(d, t) for t in tests]
-    exe = [sel[i] and (not tests[i][2] or bool(d["ri"])) for i in range(n)]
-    ign = [sel[i] and bool(tests[i][2]) and not d["ri"] for i in range(n)]
-    how = "shuffle" if d["shuffle"] else "reverse" if d["rev"] else "plain"
-    for r in reps:        # a broken list stops the harness early: report the order, not the missing repetitions
-        if sorted(r["order"]) != list(range(n)):
-            return "order is not a permutation: a test lost or duplicated (%s)" % how
-    if len(reps) != d["repeat"]:
-        return "number of repetitions wrong"
-    for r in reps:
-        if sorted(r["order"]) != list(range(n)):
-            return "order is not a permutation: a test lost or duplicated (%s)" % how
-        if not d["shuffle"] and r["order"] != (list(range(n)) if d["rev"] else list(range(n - 1, -1, -1))):
-            return "order is a permutation but not the %s order" % ("reversed" if d["rev"] else "registered")
-        w = r["word"]
-        if len(w) < 2 or w[0][0] != ":S" or w[-1][0] != ":E":
-            return "callback word does not start/end with tests started/ended"
-        st = "out"
-        for e, i in w[1:-1]:
-            if st == "out" and e == ":G" and i < n:
-                st = "grp"
-                g = i
-            elif st == "grp" and e == ":s" and i < n:
-                if tests[i][0] != tests[g][0]:
-                    return "a test was started inside the group segment of another group"
-                st = ("tst", i)
-            elif st == "grp" and e == ":g":
-                st = "out"
-            elif isinstance(st, tuple) and st[0] == "tst" and e == ":b" and i == st[1]:
-                st = ("bdy", i)
-            elif isinstance(st, tuple) and e == ":e":
-                st = "grp"
-            else:
-                return "group/test notifications not balanced"
-        if st != "out":
-            return "group/test notifications not balanced"
-        for i in range(n):
-            if sum(1 for e in w if e == (":s", i)) != (1 if sel[i] else 0):
-                return "selection wrong: a test %s" % ("selected by the filters was not started exactly once" if sel[i] else "not selected by the filters was started")
-            if sum(1 for e in w if e == (":b", i)) != (1 if exe[i] else 0):
-                return "execution wrong: a test body ran %s" % ("not exactly once" if exe[i] else "although ignored or not selected")
-        c = r["cnt"]
-        if c[0] != n:
-            return "test count differs from the number of registered tests"
-        if c[0] != c[1] + c[2] + c[3]:
-            return "tests != run + ignored + filtered out"
-        if c[1] != sum(exe):
-            return "run count wrong"
-        if c[2] != sum(ign):
-            return "ignored count wrong"
-        if c[3] != n - sum(sel):
-            return "filtered-out count wrong"
-    if tot != [d["repeat"] * (1 if exe[i] else 0) for i in range(n)]:
+    rl = runs_of(d)
+    for reps in runs:        # a broken list stops the harness early: report the order, not the missing repetitions
+        for r in reps:
+            if sorted(r["order"]) != list(range(n)):
+                return "order is not a permutation: a test lost or duplicated (%s)" % ("shuffle" if any(c["shuffle"] for c in rl) else "reverse" if any(c["rev"] for c in rl) else "plain")
+    if len(runs) != len(rl):
+        return "number of runs wrong"
+    flipped, shuffled, ri_hist = False, False, False
+    for k, (c, reps) in enumerate(zip(rl, runs)):
+        tag = "" if k == 0 else "in a later run of the session: "
+        if len(reps) != (c["repeat"] if c["list"] == 0 else 0):
+            return tag + ("number of repetitions wrong" if c["list"] == 0 else "a listing run ran the tests")
+        if c["list"] == 0:
+            flipped ^= bool(c["rev"])
+            shuffled |= bool(c["shuffle"]) and c["repeat"] >= 1
+        order = None if shuffled else (list(range(n)) if flipped else list(range(n - 1, -1, -1)))
+        for r in reps:
+            bad = judge_rep(tests, c, c["ri"], order, r)
+            if bad and ri_hist and not c["ri"] and judge_rep(tests, c, 1, order, r) is None:
+                bad = None
+            if bad:
+                return tag + bad
+        ri_hist |= bool(c["ri"])
+    bodies = [sum(sum(1 for e in r["word"] if e == (":b", i)) for reps in runs for r in reps) for i in range(n)]
+    if tot != bodies:
         return "per-test execution counters wrong over the repetitions"
     return None
 
@@ -416,7 +626,7 @@ def signature(s, o):
 
 def extra_oracle(s, o, flavour):
     d = parse(s)
-    if any(0 in x for t in d["tests"] for x in t[:2]) or any(0 in f[0] for f in d["gf"] + d["nf"]):
+    if any(0 in x for t in d["tests"] for x in t[:2]) or any(0 in f[0] for c in runs_of(d) for f in c["gf"] + c["nf"]):
         return None
     return diagnose(d, o)
 
@@ -424,44 +634,67 @@ def extra_oracle(s, o, flavour):
 def shrink(s):
     d = parse(s)
 
+    def fix_rands(e):
+        n = max(len(e["tests"]) - 1, 0)
+        if e["shuffle"] and e["real"]:
+            e["rands"] = libc_stream(e["seed"], n)
+        e["more"] = [dict(c, rands=libc_stream(c["seed"], n)) if c["shuffle"] and c["real"] else c for c in e["more"]]
+        return e
+
     def variant(**kw):
         e = dict(d)
         e.update(kw)
-        if e["shuffle"] and e["real"]:
-            e["rands"] = libc_stream(e["seed"], max(len(e["tests"]) - 1, 0))
-        return unparse(e)
+        return unparse(fix_rands(e))
+
+    def with_run(k, **kw):
+        """the session with run k (0 = first) changed"""
+        if k == 0:
+            return variant(**{("list_" if a == "list" else a): v for a, v in kw.items() if a != "list"})
+        m = list(d["more"])
+        m[k - 1] = dict(m[k - 1], **kw)
+        return variant(more=m)
+    more = d["more"]
+    # sessions first: fewer runs
+    for k in range(len(more)):
+        yield variant(more=more[:k] + more[k + 1:])
+    if more and more[0]["list"] == 0:          # drop the first run: the second becomes the first
+        f = more[0]
+        yield variant(ri=f["ri"], rev=f["rev"], shuffle=f["shuffle"], seed=f["seed"], repeat=f["repeat"], route=f["route"], real=f["real"],
+                      gf=f["gf"], nf=f["nf"], rands=f["rands"], more=more[1:])
     n = len(d["tests"])
     chunk = n // 2
     while chunk >= 1:                       # ddmin-like: drop blocks of tests, large blocks first
         for a in range(0, n, chunk):
             yield variant(tests=d["tests"][:a] + d["tests"][a + chunk:])
         chunk //= 2
-    for key in ("gf", "nf"):
-        for i in range(len(d[key])):
-            yield variant(**{key: d[key][:i] + d[key][i + 1:]})
-    if d["repeat"] > 1:
-        yield variant(repeat=1)
-        yield variant(repeat=d["repeat"] - 1)
-    if d["route"] != 0:
-        yield variant(route=0)
-    if d["shuffle"] and not d["gf"] and not d["nf"]:
-        pass
-    if d["shuffle"]:
-        yield variant(shuffle=0, rands=[], real=0)
-        if d["real"]:
-            yield variant(real=0)
-        else:
-            for i in range(len(d["rands"])):
-                if d["rands"][i] != 0:
-                    r = list(d["rands"])
-                    r[i] = 0
-                    yield variant(rands=r)
-            if d["rands"]:
-                yield variant(rands=d["rands"][:-1])
-    if d["rev"]:
-        yield variant(rev=0)
-    if d["ri"]:
-        yield variant(ri=0)
+    rl = runs_of(d)
+    for k, c in enumerate(rl):
+        for key in ("gf", "nf"):
+            for i in range(len(c[key])):
+                yield with_run(k, **{key: c[key][:i] + c[key][i + 1:]})
+        if c["repeat"] > 1:
+            yield with_run(k, repeat=1)
+            yield with_run(k, repeat=c["repeat"] - 1)
+        if c["route"] != 0:
+            yield with_run(k, route=1 if c["route"] == 2 else 0)
+        if k > 0 and c["list"]:
+            yield with_run(k, list=0)
+        if c["shuffle"]:
+            yield with_run(k, shuffle=0, rands=[], real=0)
+            if c["real"]:
+                yield with_run(k, real=0)
+            else:
+                for i in range(len(c["rands"])):
+                    if c["rands"][i] != 0:
+                        r = list(c["rands"])
+                        r[i] = 0
+                        yield with_run(k, rands=r)
+                if c["rands"]:
+                    yield with_run(k, rands=c["rands"][:-1])
+        if c["rev"]:
+            yield with_run(k, rev=0)
+        if c["ri"]:
+            yield with_run(k, ri=0)
     for i, (g, nm, ig) in enumerate(d["tests"]):
         if ig:
             yield variant(tests=d["tests"][:i] + [(g, nm, 0)] + d["tests"][i + 1:])
